@@ -27,7 +27,7 @@ pub fn run_into(rep: &Report) {
     }
     // (project, start state, --needed)
     let mut cases = vec![];
-    for pname in ["solo", "chain", "nested"] {
+    for pname in ["solo", "chain", "nested", "big"] {
         for start in ["pristine", "stale-after-edit"] {
             for needed in [false, true] {
                 cases.push((pname, start, needed));
